@@ -417,6 +417,18 @@ def run_expand(chk, c2m, model_fn, d, quick, model=None):
         if 'bare-function-like-name-ends-the-case' in fs and len(eof_cases) < (12 if quick else 100):
             eof_cases.append(idx)           # also run as a file of its own: the name is the last token of the translation unit
         idx += 1
+    # pp-number lexing (round 3, wave 6): pp-numbers of every shape of C11 6.4.8 directly next to macro / parameter names,
+    # seen through plain expansion, # (also of the pre-expanded argument), ##, arguments and replacement lists
+    nnum = 150 if quick else 4000
+    for k in range(nnum):
+        rng = chk.rng('ppnum%d' % k)
+        text, fs = M.gen_ppnum_case(rng, idx)
+        cases.append((idx, text))
+        feats[idx] = ['ppnum'] + fs
+        q = M.model_query(text)
+        if q is not None:
+            queries[idx] = (q, 'fn', None)
+        idx += 1
     # decoration layer (round 3): the same kinds of input -- macro sets + uses, conditional structures, #if expressions,
     # #include, the corpus -- with comments (one line, several lines, //), other white space and backslash-new-line
     # splices put in at token boundaries / any character position (translation phases 2-3 make them invisible)
